@@ -255,7 +255,7 @@ def units(tier):
     return [
         Unit("exhaustive-binary-all-k", check, count=lambda t: _space(t).total, cases=_exh, shards=(16, 64),
              space=_space(tier).describe() + " x every k in 0..maxdeg+1, subset-enumeration oracle"),
-        Unit("random-binary", check, strategy=lambda: cases(12, ["bu", "bd"]), examples=(2000, 10000), shards=(8, 16)),
-        Unit("random-binary-n<=25", check, strategy=lambda: cases(25, ["bu", "bd"]), examples=(500, 4000), shards=(8, 16)),
-        Unit("random-score", check, strategy=lambda: cases(10, ["wu"]), examples=(2400, 10000), shards=(8, 16)),
+        Unit("random-binary", check, strategy=lambda: cases(12, ["bu", "bd"]), examples=(2000, 80000), shards=(8, 16)),
+        Unit("random-binary-n<=25", check, strategy=lambda: cases(25, ["bu", "bd"]), examples=(500, 32000), shards=(8, 16)),
+        Unit("random-score", check, strategy=lambda: cases(10, ["wu"]), examples=(2400, 80000), shards=(8, 16)),
     ]
